@@ -102,10 +102,13 @@ def purify(fs):
     if not order:
         return list(fs), names
     pairs = []
+    keep = []
     for e, inner in order:
         e2 = _subst_many([e], pairs)[0] if (inner and pairs) else e  # arguments with the inner applications replaced
         d = e2.decl()
-        key = (d.name(), tuple(z3.simplify(c).get_id() for c in e2.children()))
+        simp = [z3.simplify(c) for c in e2.children()]
+        keep.extend(simp)  # keep the simplified arguments alive: z3 recycles the ids of collected terms (key collisions = unsound merging)
+        key = (d.name(), tuple(x.get_id() for x in simp))
         c = table.get(key)
         if c is None:
             c = z3.Const(f"uf!{len(table)}!{d.name()}", e.sort())
